@@ -11,6 +11,9 @@ TEXT = {
  "C04": "As C03 over three epochs: crash in epoch 1 (torn writes included), second crash at any file-system call of the recovering Open, acknowledged operations in the recovered session, process death, final recovery and a repeated recovery; every acknowledged write must be present, recovery idempotent, segment append offsets equal file lengths.",
  "C06": "Bounded symbolic model checking under the property's power-loss model (harness FileSystem: directory ops durable, data volatile until File.Sync): histories with durability points, power failure between any two operations (thorough: at any mutating FS call), symbolic choice of the surviving prefixes, real recovery executed symbolically; each key must hold its durable value or a later one (one disjunctive SMT obligation per key).",
  "C09": "As C06 for the clean-shutdown checkpoint: after Close returns nil a power failure (right after Close; thorough: at any FS call of the next Open) with a symbolic choice of what survives in every file must leave exactly the closed contents.",
+ "C11": "Quiescent part: bounded symbolic model checking (as C01) with a full Items scan after every step of every history - each live key exactly once with its current value, then ErrIterationDone on further calls - for all hash layouts within the bound. The concurrent part of the property is not claimed yet.",
+ "C14": "Heap-provenance obligations decided on the symbolic executor's object graph for every explored path (returned slices are not reachable from the DB / file buffers; the DB does not reach caller-owned arrays) plus a semantic double check (caller overwrites, later Put/Compact/Close, compare) as SMT obligations; fs.Mem only.",
+ "C16": "Symbolic execution at the real constants for boundary key/value lengths (contents partly symbolic): byte-exact round trips through Put/Get/Has/Items, clean restart and crash recovery; rejection of over-long keys/values without side effects; over-long lookups never match a stored key with the same low 16 length bits.",
  "C08": "Differential symbolic execution of recoveryIterator/segmentIterator (with bufio and io.ReadFull from stdlib SSA) against a reference decoder on segments whose tail bytes are fully symbolic: same accepted records, truncation to the accepted prefix, no error/panic, for all tail contents up to the stated length.",
  "C18": "Differential symbolic execution of the encoders/decoders against a reference written from docs/design.md; all contents symbolic, sizes case-split; MurmurHash3 compared as bit-vector terms for all inputs of each length.",
  "C19": "Every allocation executed during recovery of a segment with a fully symbolic damaged header is an SMT obligation size <= budget, the size being a symbolic expression of the header; unsat covers all 2^48 headers within the tail-length bound.",
